@@ -317,6 +317,27 @@ def generate(X):
     )
     X.write_if_changed(os.path.join(X.GEN, "C14Tree.lean"), text)
 
+    # ---------------------------------------------------------------- what the per-key generator obligations read
+    pos = {n: i for i, n in enumerate(INV)}
+    starts = []
+    for k in LUT:
+        if k not in pos:
+            raise ValueError(f"table key {k!r} is not a key of inv_name_alternatives")
+        starts.append(pos[k])  # the first append of a key's iteration is the key itself
+    starts.append(len(INV))
+    text = (
+        X.header("UnytModel.NameCode")
+        + "namespace Unyt.Generated.C14\n\n"
+        + "/-- position of every listed name in `inv_name_alternatives` (insertion order) -/\n"
+        + f"def posTree : Dict Nat := {dict_literal([(code(n), i) for n, i in pos.items()])}\n\n"
+        + "/-- `name_alternatives` as a dict: listing key ↦ names in the order they were appended -/\n"
+        + f"def namesOutT : Dict (List Nat) := {dict_literal([(code(k), nlist(code(a) for a in v)) for k, v in NA.items()])}\n\n"
+        + "/-- position of each table key's own name (= where its iteration of the generator starts), then the total -/\n"
+        + f"def keyStarts : List Nat := {nlist(starts)}\n\n"
+        + "end Unyt.Generated.C14\n"
+    )
+    X.write_if_changed(os.path.join(X.GEN, "C14Gen.lean"), text)
+
     return {
         "B": B,
         "rows": jrows,
